@@ -17,6 +17,13 @@ Suites (refs, coll: judged by Run.C19run.judge_coll, run by impl.c19.run_coll; s
          spec_issues on the first call and, for the issues attached to single rules, on the second call;
          py_oracle: per-rule issues = what fresh validator objects report for the rule alone, = second run,
          bare validator objects fed rule by rule in both directions.
+  tags : one rule with tags from a pool of tlp-namespace tags in lower / upper / mixed case, other namespaces with
+         odd case, malformed and line-break-terminated tags, repetitions and case variants of one tag; the six modelled
+         tag validators (TagFormat, TLPv1, TLPv2, TLP, DuplicateTag, NamespaceTag): all 64 subsets, every order of
+         subsets that contain a TLP validator and a case-sensitive second validator.  bit 1: Model.TagValidators.
+         validate_tags (issues AND the rule's tags afterwards); bit 2: rule.to_dict() tags after = source tags and every
+         issue occurs as often as the source tags and validator classes demand (order-free count); py_oracle: dict form,
+         tag objects, converted query unchanged; all ten network-free tag validators in two opposite orders.
   bit 2 (Spec.ValidatorsSpec.spec_issues) recomputes, from the source documents and the generating
   expressions only, which issues have to be present (each exactly once) and checks every reported issue.
   py_oracle: purity and order independence on the real objects for ALL built-in validators (29 of 31; the
@@ -180,7 +187,7 @@ ITEMS = [{"f": "v"}, {"f|contains": "*v*", "EventID": 1}, {"g|all": ["a", "b"]},
          {"f|base64offset": "abc"}, {"f": "1"}, {"f": ["a*", "b*"]}, {"f": "a\\*b"}, {"f|re": "a.*b"}, {"f": None},
          {"f|contains|contains": "x"}, {"f": "a**b"}]
 TAGS = [[], ["attack.t1059", "attack.execution"], ["tlp.red", "tlp.red"], ["x.y"], ["cve.2020-1", "car.2016-04-005", "stp.1a"],
-        ["detection.dfir", "Bad.Tag X"]]
+        ["detection.dfir", "Bad.Tag X"], ["tlp.RED", "tlp.red"], ["tlp.Amber", "attack.T1059"], ["TLP.green", "tlp.CLEAR", "cve.2020-X"]]
 LOGSOURCES = [{"category": "test"}, {"product": "windows", "service": "sysmon"}, {"product": "windows", "service": "security"},
               {"category": "process_creation", "product": "windows", "definition": "x"}]
 
@@ -411,6 +418,85 @@ def shared_to_coq(c, r):
             f"({outc('issues2')} : outcome (list issue)))")
 
 
+# ----------------------------------------------------------------------------- suite tags
+TAG_POOL = ["tlp.red", "tlp.RED", "tlp.Red", "tlp.amber", "tlp.AMBER", "tlp.Amber-Strict", "tlp.amber-strict", "tlp.clear",
+            "tlp.CLEAR", "tlp.white", "tlp.White", "tlp.green", "tlp.GREEN", "tlp.purple", "tlp.", "tlp.red\n", "tlp.amber+strict",
+            "tlp.red.extra", "tlp.rEd", "TLP.red", "Tlp.RED", "tlp .red", "attack.T1059", "Attack.t1059", "attack.t1059",
+            "CVE.2020-1", "cve.2020-1", "cve.2020-X", "car.2016-04-005", "CAR.2016-04-005", "detection.DFIR", "detection.dfir",
+            "stp.1A", "stp.1a", "x.y", "X.Y", "a-b.c_d.e", "bad ns.x", "ns.Name With Space", "\u00e9.x", ".x", "x.\n", "x.y\n\n",
+            "d3fend.D3F-X", "tlp.\u0131"]
+TAG_VS = ["tag_format", "tlpv1_tag", "tlpv2_tag", "tlptag", "duplicate_tag", "namespace_tag"]
+TVK = {"tag_format": "TFormat", "tlpv1_tag": "TTlp1", "tlpv2_tag": "TTlp2", "tlptag": "TTlp", "duplicate_tag": "TDup",
+       "namespace_tag": "TNamespace"}
+
+
+def gen_tags(tier, rng):
+    out = []
+    quick = tier == "quick"
+    # every tag alone: all six validators, several orders
+    for t in TAG_POOL:
+        orders = [TAG_VS[:], TAG_VS[::-1]] + [rng.sample(TAG_VS, 6) for _ in range(2 if quick else 10)]
+        for o in orders:
+            out.append({"tags": [t], "vs": o, "seed": rng.randrange(10**6)})
+    # tag lists with repetitions and case variants of the same tag; EVERY order of a subset of the validators
+    # that contains a TLP validator and a case-sensitive second tag validator
+    for _ in range(30 if quick else 300):
+        n = rng.choice([1, 2, 2, 3, 4])
+        tags = [rng.choice(TAG_POOL) for _ in range(n)]
+        if rng.random() < 0.5:
+            base = rng.choice([t for t in TAG_POOL if t.startswith("tlp.")])
+            tags += [base, rng.choice([base, base.lower(), base.upper().replace("TLP.", "tlp.")])]
+        rng.shuffle(tags)
+        k = rng.choice([2, 3, 3, 4] if quick else [2, 3, 4, 4, 5])
+        sub = [rng.choice(["tlpv1_tag", "tlpv2_tag", "tlptag"]), rng.choice(["tag_format", "duplicate_tag"])]
+        sub += rng.sample([v for v in TAG_VS if v not in sub], k - 2)
+        for perm in itertools.permutations(sub):
+            out.append({"tags": tags, "vs": list(perm), "seed": rng.randrange(10**6)})
+    # all subsets of the six validators on a fixed hostile tag list
+    tags = ["tlp.RED", "tlp.red", "tlp.Amber", "x.Y", "tlp.RED"]
+    for k in range(0, 7):
+        for sub in itertools.combinations(TAG_VS, k):
+            o = list(sub)
+            rng.shuffle(o)
+            out.append({"tags": tags, "vs": o, "seed": rng.randrange(10**6)})
+    return out
+
+
+def ctag(ns, name):
+    return f"{{| t_ns := {cstr(ns)}; t_name := {cstr(name)} |}}"
+
+
+def ctag_s(s):
+    ns, name = s.split(".", 1)
+    return ctag(ns, name)
+
+
+def tags_to_coq(c, r):
+    if "exc" in r:
+        return None
+    vs = clist(TVK[v] for v in c["vs"])
+    tags = clist(ctag_s(t) for t in c["tags"])
+    out = clist(f"{k} {ctag(ns, nm)}" for k, ns, nm in r["issues"])
+    after = clist(ctag_s(t) for t in r["tags_after"])
+    return f"(({vs} : list tvkind), ({tags} : list tag), ({out} : list tissue), ({after} : list tag))"
+
+
+def tags_stratum(c, r):
+    if "exc" in r:
+        return "error"
+    return "issues:" + ("+".join(sorted({i[0] for i in r["issues"]})) or "none")
+
+
+def tags_mutate(c, rng):
+    out = []
+    for t in ("tlp.RED", "tlp.Amber", "tlp.red", "x.Y"):
+        out.append(dict(c, tags=c["tags"] + [t]))
+        out.append(dict(c, tags=[t] + c["tags"]))
+    out.append(dict(c, vs=c["vs"][::-1]))
+    out.append(dict(c, vs=TAG_VS[:]))
+    return out
+
+
 # ----------------------------------------------------------------------------- Coq terms
 def cast(e):
     k = e[0]
@@ -507,6 +593,8 @@ PROPERTY = Property(
     suites=[
         Suite("refs", gen_refs, "run_coll", REQ, "judge_coll", coll_to_coq, mutate=mutate, py_oracle=py_oracle, stratum=stratum, shard=400),
         Suite("coll", gen_coll, "run_coll", REQ, "judge_coll", coll_to_coq, mutate=mutate, py_oracle=py_oracle, stratum=stratum, shard=250),
+        Suite("tags", gen_tags, "run_tags", REQ + ["Model.TagValidators"], "judge_tags", tags_to_coq, mutate=tags_mutate,
+              py_oracle=py_oracle, stratum=tags_stratum, shard=400),
         Suite("shared", gen_shared, "run_shared", REQ, "judge_shared", shared_to_coq, mutate=mutate, py_oracle=py_oracle, stratum=stratum, shard=250),
     ],
     rule="refs: one rule, condition texts spelled from all expression shapes up to 3 (quick) / 4 (thorough) leaves and random ones "
@@ -516,7 +604,10 @@ PROPERTY = Property(
          "shared: 2-4 (thorough 5) rules cut from one template - detections are subsets of a common pool, the same conditions / "
          "selector patterns recur and match in some rules only, ids (incl. none) / titles / file names / paths shared - validated in "
          "EVERY order by one SigmaValidator, twice with the same validator objects, plus every rule alone with fresh objects; "
-         "every case additionally runs 29 built-in validators in two orders for purity / order independence. "
+         "tags: one rule, tags from a 45-tag pool (tlp namespace in lower/upper/mixed case, odd-case other namespaces, malformed, "
+         "newline-terminated), repetitions and case variants, six modelled tag validators: all 64 subsets, every order of subsets "
+         "with a TLP validator and a case-sensitive second validator, tags after validation compared with the source; "
+         "every refs/coll case additionally runs 29 built-in validators in two orders for purity / order independence. "
          "non-trivial = the implementation reported at least one modelled issue or raised; distinct by (suite, case hash)",
     assumptions=["condition text -> parse tree is modelled (copy of C02's grammar model) and validated by the correspondence only",
                  "the iteration order of the validator set is made explicit by replacing SigmaValidator.validators with a list of "
